@@ -652,3 +652,28 @@ func TestC13History(t *testing.T) {
 		return keys
 	}})
 }
+
+
+// ---------------------------------------------------------------- C18 (history half: no lock after a failed fleet scale-up)
+
+func TestC18History(t *testing.T) {
+	p := &world.Profile{Name: "fleetfail", MinGroups: 1, MaxGroups: 2, Fleet: 2, Auto: 1, MaxInit: 6, SmallGraces: true, Steps: 25,
+		Weights: with(baseWeights(), "targetUtil", 14, "scan", 14, "fleetPlan", 8, "fault", 2, "advance", 4, "taintExt", 1, "cordon", 1)}
+	col := newCollector(t, "C18", "history half: fleet-mode groups whose CreateFleet / readiness / attach steps fail in drawn ways; the scan after a failed scale-up, inside what would have been the cool-down, is judged as unlocked by the band oracle; non-trivial = a scan that follows a failed fleet scale-up of the same group and for which the band oracle demands an action; distinct by (failure shape, expected band)")
+	historyCheck(t, &historyOpts{prop: "C18", profile: p, col: col, classify: func(w *world.World, rec *world.ScanRecord) []string {
+		var keys []string
+		for _, gr := range rec.Groups {
+			if !gr.PrevIncreaseFailed || rec.Restarted {
+				continue
+			}
+			ex := w.Expectation(rec, gr)
+			if ex.Kind == "band" && !(ex.Bands == [4]bool{false, false, true, false}) {
+				keys = append(keys, fmt.Sprintf("afterfail|%v|acted=%v", ex.Bands, gr.K8sWrites+gr.AWSWrites > 0))
+			}
+			if ex.Kind == "recover" {
+				keys = append(keys, fmt.Sprintf("afterfail|recover|acted=%v", gr.K8sWrites+gr.AWSWrites > 0))
+			}
+		}
+		return keys
+	}})
+}
